@@ -198,6 +198,27 @@ let check_kind (prop : string) (b : block) : verdict list =
                     end) irows
               | None -> ())
            end
+         | "law" ->
+           (match split_on "|" args with
+            | [a; [x]] ->
+              let a = ints a and x = int_of_string x in
+              let (s1, c0) = Model.execute_query d (z a) !st in
+              let (s2, c1) = Model.execute_query d (z (a @ [x])) s1 in
+              let (s3, c2) = Model.execute_query d (z (a @ [-x])) s2 in
+              st := s3;
+              let ms = Model.sat d (z a) in
+              let mr = [Conv.dec_of_z c0; Conv.dec_of_z c1; Conv.dec_of_z c2; (if ms then "1" else "0")] in
+              if o.pan = None && mr <> res then
+                add (Diff ("law", Printf.sprintf "[%s] model [%s] impl [%s]" opdesc (String.concat " " mr) (String.concat " " res)));
+              (match res with
+               | [i0; i1; i2; isat] when o.pan = None ->
+                 let sum = Conv.dec_of_z (Model.Z.add (Conv.z_of_dec i1) (Conv.z_of_dec i2)) in
+                 if sum <> i0 then
+                   add (Viol (sig_of "count" "law-split", Printf.sprintf "[%s] count(A)=%s but count(A,x)+count(A,-x)=%s" opdesc i0 sum));
+                 if (isat = "1") <> (i0 <> "0") then
+                   add (Viol (sig_of "sat" "vs-count", Printf.sprintf "[%s] sat=%s but count=%s" opdesc isat i0))
+               | _ -> ())
+            | _ -> add (Diff ("law", "bad op line")))
          | "marked" ->
            let a = ints args in
            let (s', r) = Model.get_marked_nodes_clone d (z a) !st in
